@@ -22,12 +22,20 @@ inductive GrowKind | whileLoop | ifOnce | absent
 deriving DecidableEq, Repr
 '''
 
-DEFAULTS = dict(initialMmapSize=0, intFmt='', twoDoublesFmt='', intWidth=0, twoDoublesWidth=0,
-                readerExpr='(0 : Int)', writerExpr='(0 : Int)', padByte=0, scanStart=0, lenFieldSkip=0, valueSkip=0, headerPos=0,
-                freshUsed=0, growFactor=0, positionBack=0, growKind='absent', ctorEffects=[], initValueEffects=[],
-                growBody=[], writeValueEffects=[], packIntegerSlice=0, packTwoDoublesSlice=0, readerUsesHeaderBound=False,
-                shortFileGuard=None, entryPacksDoubles=True, entryReserve=0,
-                vanishCaught='', vanishTyp='', vanishModePrefix='', vanishReraises=False, removeTyp='', removeModePrefix='')
+# On an unexpected shape the site is reported (EXTRACT-FAIL, extractOk := false: the proof obligations count as broken) and
+# every definition not yet extracted keeps the value of the reference layout below — NOT zeros: the driver must stay a
+# terminating, sensible model (zero skips / growth factor would make its loops spin), so that the correspondence run and the
+# independent oracle can still produce the failing input.
+DEFAULTS = dict(initialMmapSize=65536, intFmt='i', twoDoublesFmt='dd', intWidth=4, twoDoublesWidth=16,
+                readerExpr='((e : Int) + ((8 : Int) - (((e : Int) + (4 : Int)) % (8 : Int))))',
+                writerExpr='((8 : Int) - (((e : Int) + (4 : Int)) % (8 : Int)))', padByte=32, scanStart=8, lenFieldSkip=4,
+                valueSkip=16, headerPos=0, freshUsed=8, growFactor=2, positionBack=16, growKind='whileLoop',
+                ctorEffects=['openFile', 'truncateInitial', 'remap', 'writeHeader'],
+                initValueEffects=['growLoop', 'writeEntry', 'writeHeader'], growBody=['truncateGrow', 'remap'],
+                writeValueEffects=['callInitValue', 'writeValue'], packIntegerSlice=4, packTwoDoublesSlice=16,
+                readerUsesHeaderBound=True, shortFileGuard=4, entryPacksDoubles=True, entryReserve=0,
+                vanishCaught='FileNotFoundError', vanishTyp='gauge', vanishModePrefix='live', vanishReraises=True,
+                removeTyp='gauge', removeModePrefix='live')
 
 
 class IntExpr:
